@@ -683,6 +683,48 @@ Section SweeperTheorems.
     transitivity ((u m x -! dt *! C -! dt *! C') +! dt *! C +! dt *! C'); [ring|]. rewrite H. ring.
   Qed.
 
+  (* Conversely the IMEX collocation solution (full right-hand side) is a fixed point of the IMEX sweep *)
+  Theorem imex_collocation_is_fixed_point QI QE u f tau :
+    solver_left_inverse 0 -> feval_ext -> lower_triangular QI -> strictly_lower_triangular QE -> consistent u f ->
+    collocation2 u f tau ->
+    let r := imex_update kO kadd kmul ksub M dt t0 nodes Q solve feval QI QE u f tau in
+    forall m, 1 <= m <= M -> forall x, fst r m x = u m x.
+  Proof.
+    intros Hli Hext Htri Hstri Hcons Hcoll r. unfold imex_update, update_nodes in r.
+    pose proof (sweep_loop_spec kO kadd kmul dt t0 nodes 2 feval (fun p => if Nat.eqb p 0 then QI else QE)
+                  (imex_node_solve kadd kmul dt t0 nodes solve QI)
+                  1 (gather kO kadd kmul ksub M dt Q 2 (fun p => if Nat.eqb p 0 then QI else QE) 1 (u 0) f tau) M 1 u f (le_n 1)) as S.
+    cbv zeta in S. fold r in S. destruct S as [_ Sn].
+    assert (Hall : forall n m, m <= n -> 1 <= m <= M -> forall x, fst r m x = u m x).
+    { induction n as [|n IH]; intros m Hmn Hm x; [lia|].
+      destruct (Sn m ltac:(lia)) as [_ E2].
+      assert (Hf : forall j, 1 <= j < m -> forall p y, snd r j p y = f j p y).
+      { intros j Hj p y. destruct (Sn j ltac:(lia)) as [E _]. rewrite E, (Hcons j ltac:(lia)). apply Hext.
+        intros z. apply IH; lia. }
+      assert (Hrhs : forall y,
+         accum kadd (gather kO kadd kmul ksub M dt Q 2 (fun p => if Nat.eqb p 0 then QI else QE) 1 (u 0) f tau m) 1 (m - 1)
+               (dqd_term kO kadd kmul dt 2 (fun p => if Nat.eqb p 0 then QI else QE) (snd r) m) y
+         = u m y -! (dt *! QI m m) *! f m 0 y).
+      { intros y. rewrite (rhs_spec kO kI kadd kmul ksub kopp Rth), (gather_spec kO kI kadd kmul ksub kopp Rth).
+        replace (S M - 1) with M by lia. simpl. unfold vadd, vzero, vscale.
+        rewrite !L2, L4.
+        rewrite (sumf_ext kO kadd (fun j => QI m j *! snd r j 0 y) (fun j => QI m j *! f j 0 y) 1 (m - 1))
+          by (intros j Hj; rewrite Hf by lia; reflexivity).
+        rewrite (sumf_ext kO kadd (fun j => QE m j *! snd r j 1 y) (fun j => QE m j *! f j 1 y) 1 (m - 1))
+          by (intros j Hj; rewrite Hf by lia; reflexivity).
+        rewrite (Hcoll m Hm y).
+        rewrite (sumf_ext kO kadd (fun j => Q m j *! (f j 0 y +! f j 1 y)) (fun j => Q m j *! f j 0 y +! Q m j *! f j 1 y) 1 M)
+          by (intros; ring).
+        rewrite (sumf_add kO kI kadd kmul ksub kopp Rth).
+        rewrite (sumf_tri QI (fun j => f j 0 y) m Htri Hm).
+        rewrite (sumf_last (fun j => QI m j *! f j 0 y) m) by lia.
+        rewrite (sumf_stri QE (fun j => f j 1 y) m Hstri Hm).
+        ring. }
+      rewrite E2. unfold imex_node_solve.
+      apply Hli. intros y. rewrite Hrhs. rewrite (Hcons m Hm). reflexivity. }
+    intros m Hm x. apply (Hall m m (le_n m) Hm).
+  Qed.
+
   (* ---------------------------------------------------------------- explicit fixed points (C01) *)
   (* explicit sweeper: no solver at all, so BOTH directions hold unconditionally (strictly lower-triangular QE) *)
   Theorem expl_fixed_point_is_collocation QE u f tau :
